@@ -145,6 +145,19 @@ def f64_of(bits_hex):
 def mon_C01(case):
     fails = []
     comp = case.comp
+    if comp == "wtsizes":
+        # constructors that fix the key hasher: the configured partition bounds must be the ones asked for
+        P = case.params
+        w, q, p = int(P["wcap"]), int(P["qcap"]), int(P["pcap"])
+        for i, l in enumerate(case.lines):
+            st = l.pos[1] if len(l.pos) > 1 else ""
+            m = re.match(r"^W\{cap=(\d+)\} P\{cap=(\d+)\} Q\{cap=(\d+)\}$", st.strip())
+            if m and (int(m.group(1)), int(m.group(2)), int(m.group(3))) != (w, p, q):
+                fails.append(Fail(case, i, "configured bounds window=%d probationary=%d protected=%d, built with %s" % (w, p, q, st.strip())))
+            res = l.pos[0].strip() if l.pos else ""
+            if l.op == "cap" and res.isdigit() and int(res) != w + p + q:
+                fails.append(Fail(case, i, "cap()=%s but the configured bounds add up to %d" % (res, w + p + q)))
+        return fails
     if comp not in RESIDENT:
         return fails
     P = case.params
